@@ -8,20 +8,35 @@ use crate::{
     symbol::Symbol,
     value::Value,
     variables::Variables,
-    Interpreter, InterpreterError, SyntaxError, Token, TracedInterpreterError,
+    Interpreter, InterpreterError, OutOfMemoryError, SyntaxError, Token, TracedInterpreterError,
 };
+
+/// Expressions are evaluated by recursive descent, so deeply nested parentheses,
+/// function arguments and subscripts use up the native stack. Past this depth we
+/// report an out of memory error instead of crashing.
+pub const MAX_EXPRESSION_DEPTH: usize = 64;
 
 pub struct ExpressionEvaluator<'a> {
     interpreter: &'a mut Interpreter,
+    depth: usize,
 }
 
 impl<'a> ExpressionEvaluator<'a> {
     pub fn new(interpreter: &'a mut Interpreter) -> Self {
-        ExpressionEvaluator { interpreter }
+        ExpressionEvaluator {
+            interpreter,
+            depth: 0,
+        }
     }
 
     pub fn evaluate_expression(&mut self) -> Result<Value, TracedInterpreterError> {
-        self.evaluate_logical_or_expression()
+        if self.depth == MAX_EXPRESSION_DEPTH {
+            return Err(OutOfMemoryError::StackOverflow.into());
+        }
+        self.depth += 1;
+        let result = self.evaluate_logical_or_expression();
+        self.depth -= 1;
+        result
     }
 
     pub fn evaluate_array_index(&mut self) -> Result<Vec<usize>, TracedInterpreterError> {
